@@ -99,3 +99,6 @@ def run(ctx, facts):
     C11.store_track(ctx, facts)
     C11.signature_rules(ctx, facts)
     C11.resetbefore(ctx, facts)
+    from . import C01
+    ctx.rule("BETAS", C01.RULES["BETAS"])
+    C01.betas_rule(ctx, facts)
